@@ -59,8 +59,15 @@ structure Oracles where
 /-- `XPathToken.wrong_syntax` without explicit code (xpath_tokens/base.py:935-944) -/
 def wrongSyntaxCode (t : Tok) : String := if t.label == "function" then "XPST0017" else "XPST0003"
 
+/-- `Py_UNICODE_ISSPACE`: the characters for which `str.isspace()` holds and which `\s` matches in a
+`str` pattern (bidirectional class WS, B or S, or general category Zs) -/
+def pyIsSpaceChar (c : Char) : Bool :=
+  let n := c.toNat
+  (0x09 ≤ n && n ≤ 0x0D) || (0x1C ≤ n && n ≤ 0x20) || n == 0x85 || n == 0xA0 || n == 0x1680 ||
+  (0x2000 ≤ n && n ≤ 0x200A) || n == 0x2028 || n == 0x2029 || n == 0x202F || n == 0x205F || n == 0x3000
+
 /-- `str.isspace()` on the matched text -/
-def isSpace (m : Match) : Bool := !m.text.isEmpty && m.text.toList.all Char.isWhitespace
+def isSpace (m : Match) : Bool := !m.text.isEmpty && m.text.toList.all pyIsSpaceChar
 
 def isQuote (c : Char) : Bool := c == '\'' || c == '"'
 
